@@ -21,7 +21,7 @@ ASSUMPTIONS = [
     "single-threaded: the bytes read right after an answer are the bytes the answer was about",
 ]
 MONITORS = "every (meta, hash) obtained through the state cache or carried over by update() compared with hashlib at the same instant"
-REQUIRED_COUNTERS = ["re_adds_into_a_verifying_store", "legacy_store_checkouts", "failed_adds_over_an_existing_path", "failed_create_index_checkouts_with_meta_update", "batched_lookups_of_legacy_rows", "alias_path_queries", "index_update_with_swap_during_md5", "index_md5_on_reused_index", "memfs_batched_queries", "failed_link_checkouts", "failed_create_index_checkouts", "large_file_cases", "index_update_with_reloaded_old_index", "racing_writer_queries", "symlinked_files", "answers_checked", "state_hits_checked", "mutations", "get_vs_get_many_compared", "staging_listings_checked", "index_md5_checked",
+REQUIRED_COUNTERS = ["checkouts_with_agreeing_prompt_asked", "re_adds_into_a_verifying_store", "legacy_store_checkouts", "failed_adds_over_an_existing_path", "failed_create_index_checkouts_with_meta_update", "batched_lookups_of_legacy_rows", "alias_path_queries", "index_update_with_swap_during_md5", "index_md5_on_reused_index", "memfs_batched_queries", "failed_link_checkouts", "failed_create_index_checkouts", "large_file_cases", "index_update_with_reloaded_old_index", "racing_writer_queries", "symlinked_files", "answers_checked", "state_hits_checked", "mutations", "get_vs_get_many_compared", "staging_listings_checked", "index_md5_checked",
                      "index_update_carried_checked", "injected_rows", "memfs_queries", "batch_boundary_cases", "mutations_between_queries", "ext4_cases"]
 
 ALGOS = ["md5", "sha256", "md5-dos2unix", "blake3"]
@@ -276,7 +276,7 @@ def run_shard(ctx):
                         else:
                             cur[p] = new
                     continue
-                q = rng.choice(["hash_file", "hash_file", "get", "get_many", "_get_hashes", "build", "index_md5", "index_update", "inject", "memfs", "racing-writer", "checkout-failed-link", "index-checkout-failed-create", "alias-through-dir-symlink", "add-failed-over-existing-path", "legacy-store-checkout", "re-add-into-verifying-store"])
+                q = rng.choice(["hash_file", "hash_file", "get", "get_many", "_get_hashes", "build", "index_md5", "index_update", "inject", "memfs", "racing-writer", "checkout-failed-link", "index-checkout-failed-create", "alias-through-dir-symlink", "add-failed-over-existing-path", "legacy-store-checkout", "re-add-into-verifying-store", "checkout-with-agreeing-prompt"])
                 if batch and q in ("build", "index_md5", "index_update"):
                     q = "get_many"
                 hist.append(["query", q, ""])
@@ -640,6 +640,35 @@ def run_shard(ctx):
                     if os.path.isfile(vp_):
                         _m1, h1 = hash_file(vp_, fs, "md5", state=state)
                         verify(vp_, "md5", h1.value, "hash_file/object-after-re-add-into-verifying-store")
+                elif q == "checkout-with-agreeing-prompt":
+                    # a non-forced object checkout over a workspace file the user has edited (its bytes are not in the cache), with a
+                    # prompt that agrees to the replacement, for every link type: afterwards the state answers for the bytes there
+                    from dvc_data.hashfile.checkout import CheckoutError, PromptError, checkout as _checkout
+                    from dvc_data.hashfile.transfer import transfer as _transfer
+
+                    res.count("checkouts_with_agreeing_prompt")
+                    pdir = os.path.join(d, f"pco-{len(hist)}")
+                    a_, b_ = gen.small_content(rng) + b"pA", gen.small_content(rng) + b"pB"
+                    gen.write_tree(pdir, {("a",): a_, ("sub", "b"): b_})
+                    plk_ = rng.choice(["copy", "hardlink", "symlink", "hardlink", "symlink"])
+                    podb = env.local_odb(os.path.join(d, "cache"), state=state, type=[plk_])
+                    stg, _m, tobj = build(podb, pdir, fs, "md5")
+                    _transfer(stg, podb, {tobj.hash_info}, shallow=False)
+                    victim_ = rng.choice([("a",), ("sub", "b")])
+                    with open(os.path.join(pdir, *victim_), "wb") as f:
+                        f.write(gen.small_content(rng) + b"user's edit")
+                    asked_ = []
+                    try:
+                        _checkout(pdir, fs, tobj, podb, force=False, state=state, prompt=lambda m_: asked_.append(m_) or True)
+                    except (CheckoutError, PromptError):
+                        res.count("checkouts_with_agreeing_prompt_refused")
+                    if asked_:
+                        res.count("checkouts_with_agreeing_prompt_asked")
+                    for rel in (("a",), ("sub", "b")):
+                        pp = os.path.join(pdir, *rel)
+                        if os.path.isfile(pp):
+                            _m1, h1 = hash_file(pp, fs, "md5", state=state)
+                            verify(pp, "md5", h1.value, f"hash_file/after-checkout-with-agreeing-prompt({plk_})")
                 elif q == "add-failed-over-existing-path":
                     # adding an object fails (its source is gone; the caller's error hook is told) while other bytes already sit at the
                     # object's path in a store that does not check what it holds: no row may vouch for those bytes
